@@ -700,6 +700,20 @@ func (x *verifC17RbfRun) onError(k int, ev ProtocolEvent, err error, built bool)
 		}
 	case *OfferReceivedEvent:
 		x.vc.Count("offers_refused", 1)
+		if errors.Is(err, ErrWrongLocalScript) {
+			if bytes.Equal(t.SigMsg.CloseeScript, x.scripts[k]) {
+				// the offer names the very script this closee
+				// asked for last.
+				x.vc.Count("oracle_identical_tx", 1)
+				x.viol("coop_identical_tx", "rbf:closee-refuses-its-own-latest-script",
+					fmt.Sprintf("closee %d refuses the honest closer's closing_complete fee %d (type %s opener %d) that pays it to its latest script %x: %v",
+						k, t.SigMsg.FeeSatoshis, x.p.TypeName, x.oi, x.scripts[k], err))
+				return
+			}
+			// crossing offers: the closer had not yet seen the closee's
+			// new script.
+			x.vc.Count("crossing_offer_names_old_script", 1)
+		}
 		if ex := x.cur[1-k]; built && ex != nil && ex.propTx != nil {
 			// the closee passed its own checks, built its version
 			// of the transaction and then could not complete it
@@ -1022,6 +1036,28 @@ func verifC17RbfCase(vc *lnwallet.VerifCtx, i int) {
 
 	ci := r.Intn(2) // sends shutdown first
 	plan := [2][]int64{x.fees(r, 0, 1+r.Intn(3)), x.fees(r, 1, 1+r.Intn(3))}
+	// a third of the trials: one or both parties name a NEW delivery script
+	// in (most of) their 2nd/3rd offers as closer. Own PRNG stream, so the
+	// other choices of the trial are what they were without this.
+	rs := vc.Rng(i).Fork("c17-rbf-script-change")
+	var changer [2]bool
+	if rs.Chance(1, 3) {
+		switch rs.Intn(3) {
+		case 0:
+			changer[0] = true
+		case 1:
+			changer[1] = true
+		default:
+			changer[0], changer[1] = true, true
+		}
+		// both sides make three offers in these trials, so that there are
+		// offers of either side after a change of either side.
+		for k := 0; k < 2; k++ {
+			if n := 3 - len(plan[k]); n > 0 {
+				plan[k] = append(plan[k], x.fees(rs, k, n)...)
+			}
+		}
+	}
 	// the first offer of each side is made by the machine itself once
 	// the channel is flushed: ideal fee rate of the initiator, default
 	// fee rate of the responder.
@@ -1047,21 +1083,6 @@ func verifC17RbfCase(vc *lnwallet.VerifCtx, i int) {
 
 	// further offers (RBF): each side in PRNG order, sometimes while the
 	// other direction's exchange is still in flight.
-	// a third of the trials: one or both parties name a NEW delivery script
-	// in (most of) their 2nd/3rd offers as closer. Own PRNG stream, so the
-	// other choices of the trial are what they were without this.
-	rs := vc.Rng(i).Fork("c17-rbf-script-change")
-	var changer [2]bool
-	if rs.Chance(1, 3) {
-		switch rs.Intn(3) {
-		case 0:
-			changer[0] = true
-		case 1:
-			changer[1] = true
-		default:
-			changer[0], changer[1] = true, true
-		}
-	}
 	next := [2]int{1, 1}
 	for !x.failed {
 		var cand []int
